@@ -62,6 +62,8 @@ func (e *Expr) String() string {
 			}
 		}
 		return "(" + e.Op + " " + strings.Join(vs, ", ") + " :: " + e.Args[0].String() + ")"
+	case "old":
+		return "old(" + e.Args[0].String() + ")"
 	case "ite":
 		return "(" + e.Args[0].String() + " ? " + e.Args[1].String() + " : " + e.Args[2].String() + ")"
 	}
